@@ -189,6 +189,8 @@ class Interp:
         self.poll_hook = None              # fn(interp, pin, future_value) -> output value or None
         self.bv_arith = None               # fn(interp, op, a, b) -> value or None (arithmetic on bit vectors)
         self.unknown_call = None           # fn(interp, name, args, term) -> value or None: last resort for calls without a model
+        self.ext_binop = None              # (interp, op, a, b) -> value | None : arithmetic on a caller's own abstract values
+        self.ext_cast = None               # (interp, value, target type) -> value | None
         self.assert_log = None             # {(file, line, kind): {'ok' | 'fail' | 'unknown'}} when a caller audits rustc-emitted checks
         self.bv_cmp = None                 # (a_bits, b_bits) -> '<' | '=' | '>' : an order on bit vectors supplied by the caller (hand-written Ord of a packed word)
         self.symbolic_len = False          # Vec::len of a non-empty abstract collection is an unknown number
@@ -342,6 +344,10 @@ class Interp:
             return v
         if k == 'cast':
             v = self.operand(frame, rv['op'])
+            if self.ext_cast is not None:
+                r_ = self.ext_cast(self, v, rv.get('ty'))
+                if r_ is not None:
+                    return r_
             if v[0] == 'bv':
                 w = INT_WIDTH.get(rv.get('ty'))
                 if w is None:
@@ -390,6 +396,10 @@ class Interp:
         raise Unmodelled('rvalue %s' % k)
 
     def binop(self, op, a, b):
+        if self.ext_binop is not None:
+            r_ = self.ext_binop(self, op, a, b)
+            if r_ is not None:
+                return r_
         if a[0] == 'bv' or b[0] == 'bv':
             return self.bv_binop(op, a, b)
         if a[0] == 'bool' and b[0] == 'bool':
@@ -762,7 +772,7 @@ class Interp:
                 r = self.bv_cmp(a[1], b[1])
                 o = ('adt', 'core::cmp::Ordering', {'<': 0, '=': 1, '>': 2}[r], [])
                 return o if name.endswith('::cmp') else mk_option(o)
-            if a[0] not in ('ts', 'dur') or b[0] != a[0]:
+            if a[0] not in ('ts', 'dur', 'ticks') or b[0] != a[0]:
                 raise Unmodelled('cmp on %s' % a[0])
             r = self.order.cmp(a[1], b[1])
             o = ('adt', 'core::cmp::Ordering', {'<': 0, '=': 1, '>': 2}[r], [])
@@ -782,7 +792,17 @@ class Interp:
             a, b = A[0], A[1]
             if a[0] == 'int' and b[0] == 'int' and a[1] is not None and b[1] is not None:
                 return ('int', max(a[1], b[1]) if seg == 'max' else min(a[1], b[1]))
-            if a[0] not in ('ts', 'dur') or b[0] != a[0]:
+            if a[0] == 'adt' and b[0] == 'adt' and a[1] == b[1]:
+                # a workspace type: through its own Ord::cmp (derived or hand-written), with std's tie rule (max keeps the second, min the first)
+                cb = self.facts.bodies.get('<%s as core::cmp::Ord>::cmp' % a[1]) or self.facts.body('<%s as core::cmp::Ord>::cmp' % a[1])
+                if cb is None or cb.cfg is None:
+                    raise Unmodelled('max/min on %s (no Ord::cmp body)' % a[1])
+                o_ = self.deref_all(self.run_body(cb, [('ref', Cell(a)), ('ref', Cell(b))], depth + 1))
+                if o_ is None or o_[0] != 'adt' or o_[1] != 'core::cmp::Ordering':
+                    raise Unmodelled('Ord::cmp of %s does not return an Ordering' % a[1])
+                gt = o_[2] == 2
+                return (a if gt else b) if seg == 'max' else (b if gt else a)
+            if a[0] not in ('ts', 'dur', 'ticks') or b[0] != a[0]:
                 raise Unmodelled('max/min on %s' % a[0])
             r = self.order.cmp(a[1], b[1])
             if seg == 'max':
@@ -1036,7 +1056,7 @@ class Interp:
         if a[0] == 'bv' and b[0] == 'bv' and self.bv_cmp is not None:
             r = self.bv_cmp(a[1], b[1])
             return mk_bool({'lt': r == '<', 'le': r in '<=', 'gt': r == '>', 'ge': r in '>=', 'eq': r == '=', 'ne': r != '='}[seg])
-        if a[0] in ('ts', 'dur') and b[0] == a[0]:
+        if a[0] in ('ts', 'dur', 'ticks') and b[0] == a[0]:
             return mk_bool(self.ts_rel(seg, a, b))
         if a[0] in ('key', 'addr', 'node') and b[0] == a[0] and seg in ('eq', 'ne'):
             return mk_bool((a[1] == b[1]) == (seg == 'eq'))
